@@ -835,6 +835,200 @@ func runScenario(r *lib.Run, idx int) {
 		}
 		afterEvent(ev, func(s *session, bc *blockchain.Blockchain) error { return bc.SetL1Head(w.l1HeadFor(n)) })
 	}
+	// The same directed interleaving with a STATE READER as the overtaken operation: opening a
+	// historical state view (by number or by hash) and reading through it has done k database reads
+	// - the retention check, the snapshot, the first history lookups - when the L1 head arrives and
+	// the pruner deletes. A view of a block whose state can never be pruned must open and answer
+	// like the twin's; a view of a block the prune may pass must fail or answer like the twin's -
+	// never with another block's values.
+	doL1OvertakingState := func(n uint64) {
+		if w.pos < 3 {
+			doL1(n)
+			return
+		}
+		w.cancelAt.Store(0)
+		w.failAt.Store(0)
+		w.failFired.Store(false)
+		k := int64(1 + rng.IntN(pick(rng, 1, 1, 2, 4, 12)))
+		if rng.IntN(10) < 7 && w.pos > 1 {
+			n = w.head() - 1 // the largest step the configuration allows
+		}
+		// the viewed block: around the floor this event can lead to
+		tgt := uint64(0)
+		if n < w.head() && n >= cfg.Retained {
+			tgt = n - cfg.Retained
+		}
+		tgt = max(tgt, w.bound)
+		cands := []uint64{tgt, tgt + 1}
+		for _, d := range []uint64{1, 2, 3} {
+			if tgt >= d {
+				cands = append(cands, tgt-d)
+			}
+		}
+		m := min(cands[rng.IntN(len(cands))], w.head())
+		if oldF, err := pruner.OldestRetainedBlock(w.rec); err == nil && tgt >= 2 && oldF+2 <= tgt && rng.IntN(10) < 6 {
+			// a block whose state is retained now and which this event's prune passes
+			lo := oldF
+			if lo > 0 {
+				lo--
+			}
+			m = lo + uint64(rng.IntN(int(tgt-1-lo)))
+		}
+		byHash := rng.IntN(3) == 0
+		cs, ss := sortedFelts(w.ps.Contracts), sortedFelts(w.ps.Slots)
+		var cnt atomic.Int64
+		var ev eventResult
+		var ok, fired bool
+		me := lib.GoID()
+		w.rec.SetOnRead(func([]byte) {
+			if lib.GoID() != me {
+				return
+			}
+			if cnt.Add(1) == k {
+				w.rec.SetOnRead(nil)
+				fired = true
+				ev, ok = w.sendL1(n)
+			}
+		})
+		var sr core.StateReader
+		var closer func() error
+		var err error
+		if byHash {
+			sr, closer, err = w.bc.Load().StateAtBlockHash(w.main.Blocks[m].Block.Hash)
+		} else {
+			sr, closer, err = w.bc.Load().StateAtBlockNumber(m)
+		}
+		var got map[string]string
+		if err == nil {
+			got = stateAnswers(sr, cs, ss)
+			closer()
+		}
+		w.rec.SetOnRead(nil)
+		if !fired {
+			w.r.Count("directed.state_view_finished_before_the_chosen_read", 1)
+			doL1(n)
+			return
+		}
+		w.r.Count("directed.state_view_overtaken_by_an_L1_event", 1)
+		if w.dead || !ok {
+			return
+		}
+		if ev.i1 > ev.i0 && w.batchCommits.Load() > 0 {
+			w.r.Count("directed.state_view_overtaken_by_a_prune_that_deleted", 1)
+		}
+		how := map[bool]string{false: "StateAtBlockNumber", true: "StateAtBlockHash"}[byHash]
+		tr, tcloser, terr := w.twin.BC.StateAtBlockNumber(m)
+		if terr == nil {
+			want := stateAnswers(tr, cs, ss)
+			tcloser()
+			w.r.Eval(1)
+			neverPrunable := m+1 >= w.bound
+			switch {
+			case err != nil && neverPrunable:
+				w.violation("directed:state-view-of-retained-block-refused-while-a-prune-commits:"+how,
+					fmt.Sprintf("%s(%d) (state never prunable: bound %d) overtaken after its read #%d by L1 head %d: %v", how, m, w.bound, k, n, err), nil)
+			case err == nil:
+				var wrong []string
+				for key, v := range got {
+					if v != "ERR" && want[key] != v {
+						wrong = append(wrong, fmt.Sprintf("%s: pruned=%q twin=%q", key, v, want[key]))
+					}
+				}
+				for key, v := range want {
+					if _, has := got[key]; !has && v != "ERR" {
+						wrong = append(wrong, fmt.Sprintf("%s: pruned=%q twin=%q", key, "", v))
+					}
+				}
+				sort.Strings(wrong)
+				if neverPrunable {
+					if d := diffMaps(got, want); len(d) > 0 {
+						w.violation("directed:state-view-of-retained-block-wrong-while-a-prune-commits:"+how,
+							fmt.Sprintf("%s(%d) overtaken after its read #%d by L1 head %d: %s", how, m, k, n, d[0]), map[string]any{"examples": head5(d)})
+					}
+				} else if len(wrong) > 0 {
+					fl, _ := pruner.OldestRetainedBlock(w.rec)
+					w.violation("directed:state-view-overtaken-by-a-prune-answers-with-another-block's-values:"+how,
+						fmt.Sprintf("%s(%d) was overtaken after its read #%d by L1 head %d; the prune moved the floor to %d; the view opened without error and answers with values that are not block %d's: %s",
+							how, m, k, n, fl, m, wrong[0]), map[string]any{"examples": head5(wrong), "view_block": m, "floor_after": fl})
+				} else {
+					w.r.Count("directed.overtaken_state_views_answering_correctly_or_failing", 1)
+				}
+			default:
+				w.r.Count("directed.overtaken_state_views_refused(prunable block)", 1)
+			}
+		}
+		afterEvent(ev, func(s *session, bc *blockchain.Blockchain) error { return bc.SetL1Head(w.l1HeadFor(n)) })
+	}
+	// A paged event query that straddles a prune: the first page(s) are fetched while their blocks
+	// are retained, the prune then moves the floor past the block the continuation token points
+	// at, and the query is continued with that token (on the running node, or on the node
+	// restarted without a filter snapshot). The continuation must fail, or the pages together
+	// must be the complete answer - never a silently shortened one.
+	doL1PagedAcross := func(n uint64) {
+		if w.pos < 4 {
+			doL1(n)
+			return
+		}
+		if rng.IntN(10) < 7 {
+			n = w.head() - 1
+		}
+		from, err := pruner.OldestRetainedBlock(w.rec)
+		if err != nil {
+			doL1(n)
+			return
+		}
+		chunk := uint64(1 + rng.IntN(3))
+		// two thirds of the queries filter by one contract (answered through the bloom index; an
+		// unfiltered query reads every block of its range)
+		var addrs []felt.Address
+		if cs := sortedFelts(w.ps.Contracts); len(cs) > 0 && rng.IntN(3) > 0 {
+			addrs = []felt.Address{felt.Address(cs[rng.IntN(len(cs))])}
+		}
+		first, tok, err := eventPages(w.bc.Load(), addrs, from, nil, chunk, 1+rng.IntN(2))
+		want, _, terr := eventPages(w.twin.BC, addrs, from, nil, 1000, 1<<20)
+		if err != nil || terr != nil || tok == nil {
+			w.r.Count("paged.no_continuation_token_before_the_event", 1)
+			doL1(n)
+			return
+		}
+		doL1(n)
+		if w.dead {
+			return
+		}
+		floorAfter, _ := pruner.OldestRetainedBlock(w.rec)
+		restarted := false
+		if rng.IntN(2) == 0 {
+			// (the restart the scenario uses is graceful; an ungraceful one is a fresh node without the snapshot)
+			if !w.restart() {
+				return
+			}
+			restarted = true
+		}
+		rest, _, err := eventPages(w.bc.Load(), addrs, from, tok, chunk, 1<<20)
+		w.r.Eval(1)
+		w.r.Count("paged.queries_continued_after_an_event", 1)
+		if floorAfter > from {
+			w.r.Count("paged.queries_continued_after_the_floor_passed_their_start", 1)
+		}
+		if err != nil {
+			if floorAfter <= from {
+				w.violation("paged-event-query:continuation-fails-although-nothing-it-covers-was-pruned",
+					fmt.Sprintf("query from block %d (floor still %d) continued after L1 head %d: %v", from, floorAfter, n, err), nil)
+			} else {
+				w.r.Count("paged.continuations_refused_after_the_floor_passed_their_start", 1)
+				w.r.Count(fmt.Sprintf("paged.continuations_refused:restarted=%v:pruned-error=%v", restarted, errors.Is(err, pruner.ErrBlockPruned)), 1)
+			}
+			return
+		}
+		got := append(append([]string{}, first...), rest...)
+		if strings.Join(got, "\n") != strings.Join(want, "\n") {
+			w.violation(fmt.Sprintf("paged-event-query:continued-across-a-prune:answer-incomplete-or-wrong:restarted=%v", restarted),
+				fmt.Sprintf("query (address filter %v) over [%d, head %d] with chunk %d: %d events fetched before L1 head %d moved the floor to %d, the continuation returned %d more without error; the unpruned twin has %d in total",
+					addrs, from, w.head(), chunk, len(first), n, floorAfter, len(rest), len(want)), map[string]any{"first_pages": head5(first), "continuation": head5(rest)})
+			return
+		}
+		w.r.Count("paged.continuations_complete", 1)
+	}
 	pickL1 := func() uint64 {
 		if w.pos == 0 {
 			return uint64(rng.IntN(5))
@@ -882,10 +1076,16 @@ func runScenario(r *lib.Run, idx int) {
 			}
 			n := pickL1()
 			if rng.IntN(5) == 0 {
+				doL1PagedAcross(n)
+			} else if rng.IntN(5) < 2 {
 				if rng.IntN(2) == 0 && w.pos > 1 {
 					n = w.head() - 1 // the largest step the configuration allows (an L1 head at or above the local head prunes nothing)
 				}
-				doL1Overtaking(n)
+				if rng.IntN(3) > 0 {
+					doL1OvertakingState(n)
+				} else {
+					doL1Overtaking(n)
+				}
 			} else {
 				doL1(n)
 			}
